@@ -214,7 +214,7 @@ def run(ctx, replay=None):
                        'operation all live handles are re-projected (values and identities of every mutable component, box contents included); '
                        'LRU histories from the GVCache model are replayed on the real dijkstra and ray caches; distinct_nontrivial = behaviours with a Mutate after a Step or Copy')
     ctx.assumptions += ['identity = python id() of grid, row lists, every GridObject (box contents included), Agent and Transform while all handles are alive']
-    depth = 4 if ctx.quick else 5
+    depth = 5 if ctx.quick else 6
     cfg = write_cfg(os.path.join(ctx.work, 'GVHeap.cfg'), specification='Spec', constants={'MaxHandles': 3, 'Depth': depth},
                     invariants=['AliasFree', 'Emit'], properties=['OnlyMutateChanges', 'CopyEquals'])
     res = run_tlc('GVHeap', cfg=cfg, workers=8, timeout=3000, heap='8g')
